@@ -48,6 +48,22 @@ def gen_moltype(rng, name, nres=None, multi_atom=False, shape=None, resnames=Non
             'atoms': atoms, 'bonds': bonds}
 
 
+def add_virtual_sites(rng, mt, p=0.6):
+    """give residues with at least two atoms a virtual site V built from their first two atoms (virtual_sitesn, centre of
+    geometry): atoms are renumbered, bonds follow"""
+    new_atoms, remap, vsites = [], {}, []
+    for r in range(mt['nres']):
+        mine = [a for a in mt['atoms'] if a['res'] == r]
+        for a in mine:
+            remap[a['idx']] = len(new_atoms) + 1
+            new_atoms.append(dict(a, idx=len(new_atoms) + 1, cgnr=len(new_atoms) + 1))
+        if len(mine) >= 2 and rng.random() < p:
+            v = dict(mine[0], idx=len(new_atoms) + 1, cgnr=len(new_atoms) + 1, name='V' + mine[0]['name'][1:], mass=0.0)
+            new_atoms.append(v)
+            vsites.append((v['idx'], [remap[mine[0]['idx']], remap[mine[1]['idx']]]))
+    return dict(mt, atoms=new_atoms, bonds=[(remap[a], remap[b]) for a, b in mt['bonds']], vsites=vsites)
+
+
 def moltype_text(mt):
     out = ['[ moleculetype ]', f"{mt['name']} 1", '[ atoms ]']
     for a in mt['atoms']:
@@ -56,6 +72,10 @@ def moltype_text(mt):
         out.append('[ bonds ]')
         for a, b in mt['bonds']:
             out.append(f"{a} {b} 1 0.35 5000")
+    if mt.get('vsites'):
+        out.append('[ virtual_sitesn ]')
+        for v, cons in mt['vsites']:
+            out.append(f"{v} 1 " + ' '.join(str(c) for c in cons))
     return '\n'.join(out) + '\n'
 
 
